@@ -253,6 +253,14 @@ pub fn mixed_sweep(e: &mut Eng) {
         let xs: Vec<f32> = grid.iter().map(|r| (i.0 as f64 * r) as f32).collect();
         mixed_with(e, (0, 0), &xs, &[], &[i]);
     }
+    // operands whose integer parts agree in their low 32 / 16 bits, consecutively: an operator is a
+    // pure function of its operands, whatever was converted just before
+    for b in [1_000_000_000i64, -3, 1_500_000_000, 123_456_789_012] {
+        for d in [1i64 << 32, -(1i64 << 32), 1 << 16] {
+            mixed_with(e, (0, 1), &[1.5], &[Time(b), Time(b + d), Time(b), Time(b + 2 * d)], &[]);
+            mixed_with(e, (0, 0), &[1.5], &[], &[DimensionlessInteger(b), DimensionlessInteger(b + d), DimensionlessInteger(b)]);
+        }
+    }
 }
 fn mixed_with(e: &mut Eng, a: (i32, i32), xs: &[f32], times: &[Time], ints: &[DimensionlessInteger]) {
     let ua = uq(a.0, a.1);
@@ -299,6 +307,9 @@ fn mixed_with(e: &mut Eng, a: (i32, i32), xs: &[f32], times: &[Time], ints: &[Di
         let q = Quantity::new(x, ua);
         for &t in times {
             let tq = Quantity::from(t);
+            if !crate::c18::time_to_quantity_ok(t.0, tq.value) {
+                e.violation("units:mixed:time-operand-conversion", 1, || format!("Quantity::from({:?}) = {:?}: the Time operand of a mixed operator counts as nanoseconds/1e9 seconds", t, tq.value));
+            }
             case!("q+t", UExp::Same, sec, q + t, q + tq);
             case!("q-t", UExp::Same, sec, q - t, q - tq);
             case!("q*t", UExp::Add, sec, q * t, q * tq);
@@ -314,6 +325,9 @@ fn mixed_with(e: &mut Eng, a: (i32, i32), xs: &[f32], times: &[Time], ints: &[Di
         }
         for &i in ints {
             let iq = Quantity::from(i);
+            if iq.value.to_bits() != (i.0 as f32).to_bits() {
+                e.violation("units:mixed:integer-operand-conversion", 1, || format!("Quantity::from({:?}) = {:?}", i, iq.value));
+            }
             case!("q+i", UExp::Same, dl, q + i, q + iq);
             case!("q-i", UExp::Same, dl, q - i, q - iq);
             case!("q*i", UExp::Add, dl, q * i, q * iq);
